@@ -65,6 +65,20 @@ class SimSourceAssertionError(SimSourceError, AssertionError):
     pass
 
 
+import sqlite3 as _sqlite3
+
+
+class SimSourceDbLocked(SimSourceError, _sqlite3.OperationalError):
+    """A source that fails the way a busy database does (the rows come from
+    another table or database): 'database is locked' is the classic
+    *retryable* error - whoever retries must first undo what the failed
+    attempt did."""
+
+    def __init__(self, msg=''):
+        super(SimSourceDbLocked, self).__init__(
+            'database is locked (%s)' % msg)
+
+
 class SimSourceAbort(BaseException):
     """A source interrupted by something that is not an Exception
     (KeyboardInterrupt-like): `except Exception` handlers do not see it, only
@@ -83,7 +97,8 @@ SOURCE_ERRORS = {'plain': SimSourceError, 'type': SimSourceTypeError,
                  'abort': SimSourceAbort, 'eof': SimSourceEOFError,
                  'runtime': SimSourceRuntimeError,
                  'memory': SimSourceMemoryError,
-                 'assert': SimSourceAssertionError}
+                 'assert': SimSourceAssertionError,
+                 'dblocked': SimSourceDbLocked}
 SOURCE_ERROR_KINDS = sorted(SOURCE_ERRORS)
 
 
